@@ -8,6 +8,7 @@ package kcp
 
 import (
 	"fmt"
+	"runtime/debug"
 	"time"
 	"unsafe"
 
@@ -50,3 +51,5 @@ func vfResetGlobals() *vfCounterEntropy {
 }
 
 func vfMs(d time.Duration) string { return fmt.Sprintf("%.3fms", float64(d)/1e6) }
+
+func vfStack() []byte { return debug.Stack() }
